@@ -34,7 +34,7 @@ JSB = [('magic', 0, 4), ('blocktype', 4, 4), ('blocksize', 12, 4), ('maxlen', 16
        ('feature_compat', 36, 4), ('feature_incompat', 40, 4), ('nr_users', 64, 4), ('csum_type', 0x50, 1), ('checksum', 0xfc, 4)]
 
 POINTER_FIELDS = {'file_acl', 'iblock0', 'iblock1', 'iblock2', 'iblock3', 'iblock5', 'iblock12', 'iblock13', 'iblock14', 'start_lo', 'leaf_lo', 'block_bitmap', 'inode_bitmap', 'inode_table'}
-CLASSES = ['sb', 'gd', 'bbitmap', 'ibitmap', 'inode', 'extent', 'ind', 'dirent', 'dx', 'xattr', 'special', 'jsb', 'bytes', 'blockop', 'dirloop', 'eadup', 'dirmap']
+CLASSES = ['sb', 'gd', 'bbitmap', 'ibitmap', 'inode', 'extent', 'ind', 'dirent', 'dx', 'xattr', 'special', 'jsb', 'bytes', 'blockop', 'dirloop', 'eadup', 'dirmap', 'geom']
 KINDS = ['zero', 'ones', 'inc', 'dec', 'bitflip', 'random', 'swap', 'other_block', 'meta_block', 'out_of_range', 'small', 'wrap']
 SUMMARY_CLASSES = ['bbitmap', 'ibitmap', 'gd_counts', 'gd_flags', 'csum_field']
 
@@ -489,6 +489,22 @@ def _apply_one(img, cls, obj, field, kind, val, fixup):
             old = int.from_bytes(img.rd(o, 4), 'little'); new = _mutate_value(old, 4, kind, val, img); img.wr(o, new.to_bytes(4, 'little')); n = 'iblock0'; what = 'blockmap'
         if fixup: img.fix_inode(ino)
         return 'dirmap dir %d %s .%s %#x->%#x%s' % (ino, what, n, old, new, ' +csum' if fixup else '')
+    if cls == 'geom':
+        # coordinated superblock geometry: per-group sizes changed TOGETHER with the totals that have to agree with them, so that the superblock still passes the consistency checks of
+        # ext2fs_open2 and the consumer behind them sees sizes no mke2fs would produce (per-group bitmaps larger than a block, tiny groups, ...)
+        vals = [8 * bs + 8, 16 * bs, 8 * bs + 8 * (1 + val % 64), 32768, 65528, 65536 - 8, 8 * bs - 8, 8, 16, 8 * bs * 4]
+        v = vals[(val // 3) % len(vals)]; which = field % 3
+        if which == 0:      # inodes per group + inode count
+            img.wr(1024 + 0x28, struct.pack('<I', v)); img.wr(1024 + 0x00, struct.pack('<I', (v * fs.ngroups) & 0xffffffff)); what = 'inodes_per_group=%d inodes_count=%d' % (v, v * fs.ngroups)
+        elif which == 1:    # blocks/clusters per group (group count follows) + inode count
+            ng = (fs.blocks - fs.first_data + v - 1) // v
+            img.wr(1024 + 0x20, struct.pack('<I', v)); img.wr(1024 + 0x24, struct.pack('<I', v // fs.cratio if fs.cratio > 1 else v)); img.wr(1024 + 0x00, struct.pack('<I', (fs.ipg * ng) & 0xffffffff))
+            what = 'blocks_per_group=%d (groups %d->%d) inodes_count=%d' % (v, fs.ngroups, ng, fs.ipg * ng)
+        else:               # block count so that the group count changes by one, inode count following
+            ng = max(1, fs.ngroups + (1 if val % 2 else -1)); nb = fs.first_data + ng * fs.bpg - (val % 7)
+            img.wr(1024 + 0x04, struct.pack('<I', nb & 0xffffffff)); img.wr(1024 + 0x00, struct.pack('<I', (fs.ipg * ng) & 0xffffffff)); what = 'blocks_count=%d (groups %d->%d) inodes_count=%d' % (nb, fs.ngroups, ng, fs.ipg * ng)
+        if fixup: img.fix_sb()
+        return 'geom sb %s%s' % (what, ' +csum' if fixup else '')
     if cls == 'blockop':
         pool = [t[0] for t in img.tree_blocks] + [t[0] for t in img.ind_blocks] + [t[0] for t in img.dir_blocks] + img.xattr_blocks + [fs.gds()[g].bbitmap for g in range(fs.ngroups)] + [fs.gds()[0].itable]
         if len(pool) < 2: return None
@@ -598,6 +614,7 @@ def areas(desc, cfg_features=()):
             out.add('bytes-' + m.group(1)); continue
         if d.startswith('block '): out.add('blockop'); continue
         if d.startswith('eadup '): out.add('eadup-shared' if 'shared' in d else 'eadup'); continue
+        if d.startswith('geom '): out.add('sb.geometry'); continue
         if d.startswith('dirmap '): out.add('dirmap'); continue
         if d.startswith('dirloop '): out.add('dirloop' if '..' in d else 'dir-unlinked'); continue
         out.add('other')
